@@ -222,11 +222,11 @@ class TablerowNode(Node):
 
                 buffer.write("</td>")
 
-                if tablerow.col_last and not tablerow.last:
-                    buffer.write(f'</tr>\n<tr class="row{tablerow.row + 1}">')
-
                 if _break:
                     break
+
+                if tablerow.col_last and not tablerow.last:
+                    buffer.write(f'</tr>\n<tr class="row{tablerow.row + 1}">')
 
         buffer.write("</tr>\n")
         return True
@@ -271,11 +271,11 @@ class TablerowNode(Node):
 
                 buffer.write("</td>")
 
-                if tablerow.col_last and not tablerow.last:
-                    buffer.write(f'</tr>\n<tr class="row{tablerow.row + 1}">')
-
                 if _break:
                     break
+
+                if tablerow.col_last and not tablerow.last:
+                    buffer.write(f'</tr>\n<tr class="row{tablerow.row + 1}">')
 
         buffer.write("</tr>\n")
         return True
